@@ -386,6 +386,20 @@ func RunC13(c *core.Ctx) {
 					if b, err := cbor.Marshal(s2); err == nil {
 						check(h, k, b, det, pl, aad, "alg-missing")
 					}
+					// protected header extended on the wire by entries the verifier might drop when re-encoding
+					// (null values, empty containers): built at the byte level, independent of the library's encoder
+					if pb, err := cbor.Marshal(s1.Protected); err == nil && len(pb) > 0 && pb[0]>>5 == 5 && pb[0]&31 < 22 {
+						for _, extra := range [][]byte{{0x18, 0x63, 0xf6}, {0x18, 0x63, 0xf7}, {0x18, 0x63, 0x40}, {0x18, 0x63, 0x80}, {0x61, 0x7a, 0xf6}, {0x38, 0x63, 0xf6}} {
+							np := append([]byte{pb[0] + 1}, pb[1:]...)
+							np = append(np, extra...)
+							rest := h.obj[1:] // after the outer array(4) head: bstr(protected) ...
+							if len(rest) > 0 && rest[0]>>5 == 2 && int(rest[0]&31) == len(pb) && len(pb) < 23 {
+								obj := append([]byte{h.obj[0], 0x40 + byte(len(np))}, np...)
+								obj = append(obj, rest[1+len(pb):]...)
+								check(h, k, obj, det, pl, aad, "protected-extended")
+							}
+						}
+					}
 					s2 = s1
 					s2.Unprotected = cose.HeaderMap{cose.Label{Int64: 99}: []byte{1, 2}}
 					if b, err := cbor.Marshal(s2); err == nil {
